@@ -28,6 +28,9 @@ class MachineryError(Exception):
 def use_repo():
     """Make `import metapype` resolve to the working tree under REPO."""
     src = os.path.join(REPO, "src")
+    m = sys.modules.get("metapype")
+    if m is not None and os.path.realpath(os.path.dirname(m.__file__)) == os.path.realpath(os.path.join(src, "metapype")):
+        return                      # already bound to the working tree: keep one set of classes
     if src in sys.path:
         sys.path.remove(src)
     sys.path.insert(0, src)
